@@ -44,7 +44,7 @@ type c03Env struct {
 	Tag string  // what the operator chose (type pair etc.), for evidence
 	// Hint >= 0 steers an operator's internal choice deterministically (type-pair matrix coverage)
 	Hint int
-	seq int
+	seq  int
 }
 
 func (e *c03Env) next() int { e.seq++; return e.seq }
@@ -228,6 +228,9 @@ func retype(fl *gen.Field, kind, typ string) {
 	fl.Default = ""
 	fl.MapKey, fl.MapVal, fl.MapValK = "", "", ""
 	fl.Options = delOpt(fl.Options, "packed", "jstype", "ctype", "features.utf8_validation", "features.(pb.cpp).string_type", "features.(pb.java).utf8_validation")
+	if kind != "message" {
+		fl.Options = delOpt(fl.Options, "features.message_encoding")
+	}
 }
 
 func fileOfMsg(e *c03Env, full string) (*c03Msg, bool) {
@@ -404,7 +407,9 @@ func init() {
 			return []c03Expect{a, b}
 		})
 	c03Reg("message-move-to-sibling-file", []string{"MESSAGE_NO_DELETE"},
-		msgSites(func(x *c03Idx, m *c03Msg) bool { return m.Parent == nil && !m.Group && sibling(x.S, m.File, true) != nil }),
+		msgSites(func(x *c03Idx, m *c03Msg) bool {
+			return m.Parent == nil && !m.Group && sibling(x.S, m.File, true) != nil
+		}),
 		func(e *c03Env, st c03Site) []c03Expect {
 			m := e.New.Msg(st.A)
 			g := sibling(e.New.S, m.File, true)
